@@ -48,6 +48,7 @@ class Program:
         self.toks = []
         self.labels = []
         self.counter = 0
+        self.nlsalt = rng.randrange(3)
         self.used = []           # variant ids used
         ch = iter(beh["choices"])
         first = next(ch)
@@ -193,9 +194,13 @@ class Program:
             if gk[i] == "open":
                 pieces.append(("T_OPEN_TAG", b"<?php"))
                 pieces.append(("T_WHITESPACE", b"\n"))
+            rp = recipes(i, "free" if gk[i] == "open" else gk[i]) if gk[i] != "none" else []
             if i > 0 and "N" in self.toks[i - 1].glue and gk[i] != "none":
-                pieces.append(("T_WHITESPACE", b"\n"))
-            pieces += recipes(i, "free" if gk[i] == "open" else gk[i]) if gk[i] != "none" else []
+                # PHP < 7.3: the ';' after a closing heredoc label must be followed by a line break (LF or CRLF); a
+                # recipe that starts with one provides it, otherwise one is put in front
+                if not (rp and rp[0][0] == "T_WHITESPACE" and (rp[0][1].startswith(b"\n") or rp[0][1].startswith(b"\r\n"))):
+                    pieces.append(("T_WHITESPACE", b"\r\n" if (self.nlsalt + i) % 3 == 0 else b"\n"))
+            pieces += rp
             if gk[i] == "sep" and not pieces:
                 pieces = [("T_WHITESPACE", b" ")]
             # a comment directly after a "/" would fuse with it ("/" + "/* c */" is a line comment)
